@@ -171,6 +171,7 @@ class TypedGen:
         "bt": ("b", True), "bf": ("b", False), "s0": ("s", ""), "sa": ("s", "a"), "sab": ("s", "ab"), "se": ("s", "é"), "sq": ("s", 'a"b'),
         "l0": ("l", ()), "l1": ("l", (N(1), ("s", "a"), ("b", True))), "ln": ("l", (N(3), N(30, 1), ("l", (N(1),)))), "lb": ("l", (("b", True), ("b", False))),
         "m1": ("m", ((("s", "k"), N(1)),)),
+        "nz": N(0), "u32max": N(4294967295), "b3e9": N(3037000500), "n2p31": N(2147483648), "nm2p32": N(-4294967296),
     }
     # "nil" is never bound: reads as None
 
@@ -185,7 +186,9 @@ class TypedGen:
             self.var_by_type[{"n": "N", "b": "B", "s": "S", "l": "L", "m": "M"}[v[0]]].append(k)
 
     def ctx_json(self):
-        return {k: ref.value_to_json(v) for k, v in self.VARS.items()}
+        j = {k: ref.value_to_json(v) for k, v in self.VARS.items()}
+        j["nz"] = ["n", "0", 1, True]  # negative zero (-0.0): numerically equal to 0 in every comparison
+        return j
 
     def num_leaf(self):
         r = self.rnd
@@ -384,9 +387,11 @@ class OrderGen:
         k = wchoice(r, [("arith", 5), ("lop", 2), ("rop", 1.5), ("list", 2), ("map", 1.2), ("call", 3), ("tern", 2.5), ("asg", 2.5), ("un", 1), ("pre", 0.8), ("post", 0.8), ("pst", 0.8), ("in", 1.2), ("notin", 0.5)])
         n = lambda: self.node(d - 1)
         if k == "arith":
-            return ["bin", r.choice(["+", "-", "*", "+"]), n(), n()]
+            a = n()
+            return ["bin", r.choice(["+", "-", "*", "+", "=="]), a, a if r.random() < 0.12 else n()]
         if k in ("lop", "rop"):
-            return ["bin", k, n(), n()]
+            a = n()
+            return ["bin", k, a, a if r.random() < 0.12 else n()]
         if k == "list":
             return ["list", [n() for _ in range(r.randint(1, 3))]]
         if k == "map":
